@@ -135,6 +135,39 @@ func programs() []Case {
 			}
 		}
 	}
+	// Save of a record whose primary key is set but whose row does not exist
+	for _, outer := range []string{"implicit", "begin"} {
+		for _, mode := range []string{"hooks", "skiphooks"} {
+			add(Case{Op: "save_missing", Shape: "ptr_struct", Len: 1, Kids: "none", Mode: mode, Outer: outer})
+		}
+	}
+	// hook bodies that issue several statements through one derived handle:
+	// a representative slice of the programs above is repeated with each body
+	base := append([]Case{}, out...)
+	for _, body := range []string{"handle", "session", "create_update"} {
+		for _, c := range base {
+			if c.Mode != "hooks" || c.PtrKids || c.Len < 1 || c.Len > 2 {
+				continue
+			}
+			if c.Shape != "ptr_struct" && c.Shape != "ptr_slice" && c.Shape != "ptr_slice_ptr" {
+				continue
+			}
+			if c.Shape == "ptr_slice_ptr" && c.Graph == "" {
+				continue
+			}
+			if c.Kids == "pet" || c.Kids == "toys" {
+				continue
+			}
+			if c.Graph != "" && (c.Graph != "triangle" && c.Graph != "two_roots" || !c.Preset) {
+				continue
+			}
+			c.Body = body
+			add(c)
+		}
+		for _, outer := range []string{"implicit", "begin"} {
+			add(Case{Op: "create_batches", Shape: "ptr_slice", Len: 3, Batch: 2, Kids: "none", Mode: "hooks", Outer: outer, Body: body})
+		}
+	}
 	// outside the alphabet proper: non-addressable arguments must be rejected
 	for _, op := range []string{"create", "save_new", "save_existing", "update", "delete"} {
 		for _, sh := range []string{"val_struct", "val_array"} {
@@ -159,6 +192,9 @@ func tags(c Case, x *mc.Exec) []string {
 	}
 	if c.Batch > 0 {
 		t = append(t, fmt.Sprintf("%s/len=%d/batch=%d", c.Op, c.Len, c.Batch))
+	}
+	if c.Body != "" {
+		t = append(t, c.Op+"/hookbody="+c.Body)
 	}
 	if c.Graph != "" {
 		t = append(t, fmt.Sprintf("%s/graph=%s/preset=%v", c.Op, c.Graph, c.Preset))
@@ -434,7 +470,7 @@ func main() {
 	}
 	run.Assume("SQLite dialect (RETURNING on), default transaction mode; SkipDefaultTransaction is outside the alphabet (no transaction of the operation exists then)")
 	run.Assume("non-addressable slice/array/struct arguments are outside the alphabet: asserted to be rejected with ErrInvalidValue, without hooks and without changes")
-	run.Assume("Save of a non-zero, non-existing key is outside the alphabet (update hooks on the 0-row UPDATE, then insert with SkipHooks): the property does not say which hooks are applicable")
+	run.Assume("Save(&T) of a set key whose row is missing: weakest reading - exactly one complete family (update or create) per record, each hook once, values set by the before-hooks (incl. a counter incremented once) are the stored ones; gorm runs it as two pipelines, so up to two default transactions are accepted there")
 	run.Assume("where the property does not say whether create or update hooks are applicable (Save of a slice = upsert through the create pipeline; children upserted by a parent's save/update) either family is accepted, one family per record")
 	run.Assume("children held by a parent of an update/Save(&existing) may or may not be saved; if any statement or hook of the child table appears, all its records must get their hooks")
 	run.Assume("queries have no transaction of their own: AfterFind must see the handle's pool (or the caller's transaction); writes made by a failing AfterFind outside a caller's transaction are not expected to be undone")
@@ -446,7 +482,7 @@ func main() {
 	cov := map[string]interface{}{
 		"evaluations":                         st.executions,
 		"distinct_nontrivial":                 cx.distinct.Len(),
-		"rule":                                fmt.Sprintf("every program of {create,save(new),save(existing),update,updates(struct),updates(map),delete,find,first} x {&T,&[]T,[]T,[]*T,&[]*T,&[N]T} x len 0..3 x children {none,has-one,has-many(2),both} (by value and by pointer) x {hooks,SkipHooks session,UpdateColumn(s)} x {gorm's own transaction, caller's transaction}; plus CreateInBatches / Session{CreateBatchSize}.Create with (len,size) in {(1,2),(2,2),(3,2),(4,2),(5,2),(4,3),(5,3)}; plus Create/Save of self-referential many2many graphs with shared pointers (chain, triangle, diamond, fan3, cycle, two roots sharing a peer, two roots + triangle; new records with and without preset keys); each explored by E1 with a choice point at every hook invocation up to %d failing hooks; non-trivial = distinct (program, failing-hook set) executions in which at least one hook invocation was logged and the whole oracle (once per record, order relative to the driver-log statement, pool/transaction identity, error, later phases, rollback / stored values) was evaluated", bound),
+		"rule":                                fmt.Sprintf("every program of {create,save(new),save(existing),save(key set, row missing),update,updates(struct),updates(map),delete,find,first} x {&T,&[]T,[]T,[]*T,&[]*T,&[N]T} x len 0..3 x children {none,has-one,has-many(2),both} (by value and by pointer) x {hooks,SkipHooks session,UpdateColumn(s)} x {gorm's own transaction, caller's transaction}; plus CreateInBatches / Session{CreateBatchSize}.Create with (len,size) in {(1,2),(2,2),(3,2),(4,2),(5,2),(4,3),(5,3)}; plus Create/Save of self-referential many2many graphs with shared pointers (chain, triangle, diamond, fan3, cycle, two roots sharing a peer, two roots + triangle; new records with and without preset keys); plus a slice of these programs (len 1-2, &T / &[]T) repeated with three hook bodies that issue 2-4 statements through one derived handle kept in a variable (write, read back, write; Session/WithContext of the handle; Create then Update); each explored by E1 with a choice point at every hook invocation up to %d failing hooks; non-trivial = distinct (program, failing-hook set) executions in which at least one hook invocation was logged and the whole oracle (once per record, order relative to the driver-log statement, pool/transaction identity, error, later phases, rollback / stored values) was evaluated", bound),
 		"samples":                             cx.samples.List(),
 		"exhaustive":                          exhaustive,
 		"programs":                            len(progs),
